@@ -1,6 +1,6 @@
 SPECIFICATION Spec
 CONSTANTS
-  NilSendEOF = FALSE
+  NilSend = "either"
   Senders = {"s1"}
   Receivers = {"r1"}
   Cap = 1
